@@ -178,8 +178,17 @@ class Interp:
                 return r
         if p not in ("jit", "pjit", "scan", "cond", "custom_jvp_call", "custom_vjp_call", "custom_linear_solve", "while",
                      "closed_call", "core_call", "remat", "checkpoint", "custom_vjp_call_jaxpr") and ins and not anysym:
-            out = e.primitive.bind(*[jnp.asarray(x, dtype=v.aval.dtype) for x, v in zip(ins, e.invars)], **P)
-            return [np.asarray(o) for o in out] if e.primitive.multiple_results else np.asarray(out)
+            def _in(x, v):
+                if isinstance(x, jax.Array) and jax.dtypes.issubdtype(x.dtype, jax.dtypes.prng_key):
+                    return x                      # typed PRNG keys stay JAX arrays (they cannot be converted to numpy)
+                return jnp.asarray(x, dtype=v.aval.dtype)
+
+            def _out(o):
+                if isinstance(o, jax.Array) and jax.dtypes.issubdtype(o.dtype, jax.dtypes.prng_key):
+                    return o
+                return np.asarray(o)
+            out = e.primitive.bind(*[_in(x, v) for x, v in zip(ins, e.invars)], **P)
+            return [_out(o) for o in out] if e.primitive.multiple_results else _out(out)
         if p in ARITH and anysym:
             ins = [x if is_obj(x) else self.sym(np.asarray(x)) for x in ins]
         if p in ("jit", "pjit", "closed_call", "core_call"):
